@@ -272,6 +272,10 @@ class BaseObserver(EventDispatcher):
         return self._emitters
 
     def start(self) -> None:
+        if self.ident is not None:
+            # Starting the emitters a second time would tear the running ones down.
+            error = "threads can only be started once"
+            raise RuntimeError(error)
         for emitter in self._emitters.copy():
             try:
                 emitter.start()
